@@ -295,7 +295,8 @@ def run_shard(ctx, args):
             ctx.case()
             ctx.count(f"input_layout[{lf}]")
             inst = Instance(relayout(np.array(D, dd), ld),
-                            relayout(np.array(F, df), lf))
+                            relayout(np.array(F, df), lf),
+                            name=(f"rnd{n}" if rng.integers(2) else None))
             judge_instance(ctx, inst, F, D, case, tag, all_perms)
         if it % 150 == 0:
             ctx.sample({"n": n, "tag": tag, "F": F[:3], "D": D[:3],
